@@ -40,15 +40,23 @@ class FuncInfo:
         n = node if node is not None else self.node
         return f"{self.module.relpath}:{getattr(n, 'lineno', self.node.lineno)}"
 
-    def nested(self):
-        """Closures defined (at any depth, not crossing further defs) in this function."""
+    def nested_list(self):
+        """All closures defined (at any depth, not crossing further defs) in this function, in source order."""
         if self._nested is None:
-            out = {}
+            out = []
             for n in walk_no_defs(self.node, include_defs=True):
                 if isinstance(n, (ast.FunctionDef, ast.AsyncFunctionDef)) and n is not self.node:
-                    out[n.name] = FuncInfo(self.module, self.cls, n, parent=self)
+                    out.append(FuncInfo(self.module, self.cls, n, parent=self))
+            out.sort(key=lambda f: f.node.lineno)
             self._nested = out
         return self._nested
+
+    def nested(self):
+        """name -> closure (the first definition of that name; use nested_list() when names repeat)."""
+        out = {}
+        for f in self.nested_list():
+            out.setdefault(f.name, f)
+        return out
 
     def params(self):
         a = self.node.args
